@@ -120,11 +120,11 @@ pub fn check_input(input: &[u8], cfg: u8, script: Option<&Script>) -> Result<(us
         })
         .map_err(|p| format!("panic while writing: {}", p))?;
         if written != canon {
-            return Err(format!("writing the events back gives {:?}, expected {:?}", lossy(&written), lossy(&canon)));
+            return Err(format!("writing the events back gives {:?}, expected {:?}", lossy_head(&written), lossy_head(&canon)));
         }
         let has_gap = obs.iter().any(|o| o.ev.is_err());
         if !has_gap && s.windows(3).all(|w| !w.eq_ignore_ascii_case(b"<!d")) && written != s {
-            return Err(format!("read -> write does not reproduce the input: {:?}", lossy(&written)));
+            return Err(format!("read -> write does not reproduce the input: {:?}", lossy_head(&written)));
         }
     }
     Ok((obs.len(), kinds))
@@ -156,7 +156,7 @@ fn sweep(ctx: &Ctx, ln: u32, sp: &Space, buffered_cuts: usize, count_distinct: b
                 }
                 Err(what) => acc.violation(
                     (ln, i * 2),
-                    format!("input {:?} cfg [{}] slice reader: {}", lossy(&input), cfg_show(cfg), what),
+                    format!("input {:?} cfg [{}] slice reader: {}", lossy_head(&input), cfg_show(cfg), what),
                     json!({"input": bytes_json(&input), "cfg": cfg}),
                 ),
             }
@@ -172,7 +172,7 @@ fn sweep(ctx: &Ctx, ln: u32, sp: &Space, buffered_cuts: usize, count_distinct: b
                     Ok((k, _)) => acc.transitions += k as u64,
                     Err(what) => acc.violation(
                         (ln, i * 2 + 1),
-                        format!("input {:?} buffered reader, cuts {:?}: {}", lossy(&input), cuts, what),
+                        format!("input {:?} buffered reader, cuts {:?}: {}", lossy_head(&input), cuts, what),
                         json!({"input": bytes_json(&input), "cfg": NEUTRAL, "script": sc.to_json()}),
                     ),
                 }
@@ -220,6 +220,10 @@ pub fn run(ctx: &Ctx) {
     ln += 1;
     sweep(ctx, ln, &mid_bom(t.pick(3, 4)), 1, false, a_len);
     ln += 1;
+    // size thresholds of the reader's spans and of the writer (every markup kind through every small
+    // length and around every power of two); the chunked source with stretched inputs is C02's layer S
+    sweep(ctx, ln, &stretch("S.stretch", STRETCH_READER, t.pick(80, 300), t.pick(13, 16), t.pick(5, 8)), 0, false, a_len);
+    ln += 1;
     let docs = corpus();
     ctx.layer("E.corpus", ln, docs.len() as u64 * 2, json!({"files": docs.len()}), |i, acc| {
         let d = &docs[(i / 2) as usize];
@@ -252,7 +256,7 @@ pub fn replay(case: &Value) -> Result<(), String> {
             run_buffered(&input, cfg, sc, 1, false, &mut obs);
         }
     }
-    println!("input: {:?} cfg [{}] script {:?}", lossy(&input), cfg_show(cfg), script);
+    println!("input: {:?} cfg [{}] script {:?}", lossy_head(&input), cfg_show(cfg), script);
     for o in show_trace(&obs) {
         println!("  {}", o.as_str().unwrap());
     }
